@@ -143,6 +143,7 @@ def check(ctx):
     aliased_params_probe(ctx)
     rejected_steps_probe(ctx)
     adjoint_only_difficulty_probe(ctx)
+    frozen_first_probe(ctx)
 
 
 # ---------------------------------------------------------------- oracle
@@ -424,6 +425,61 @@ def adjoint_only_difficulty_probe(ctx):
         if not worst <= 60.0:
             ctx.fail("oracle", "ivpgrad:%s:adjoint-only-difficulty" % meth, {"rhs": "-a y + (p - 1) sin(6 t^2) at p = 1", "bck_rtol": rtol},
                      {"errors": errs, "worst_error_over_rtol": worst}, "gradient errors within 60 x the tolerance of the backward integrator")
+
+
+def frozen_first_probe(ctx):
+    """the function's object lists a tensor WITHOUT grad before the differentiable ones and the backward pass is recorded
+    (create_graph=True): the object-held tensors still get their first- and second-order gradients (round-4 seed C08/11 - only
+    the first pair of the identity test compared, so the recording path skipped its substitution)"""
+    import xitorch as xt
+    from xitorch.integrate import solve_ivp
+    ts = torch.linspace(0.0, 1.0, 6, dtype=DT)
+    for kind in ("EditableModule", "nn.Module"):
+        a0, b0 = torch.tensor([0.8, 1.3], dtype=DT), torch.tensor([0.3, -0.2], dtype=DT)
+        if kind == "EditableModule":
+            a, b = a0.clone().requires_grad_(), b0.clone().requires_grad_()
+
+            class EMF(xt.EditableModule):
+                def __init__(self):
+                    self.c, self.a, self.b = torch.ones(2, dtype=DT), a, b
+
+                def rhs(self, t, y):
+                    return -self.a * self.c * y + self.b * t
+
+                def getparamnames(self, methodname, prefix=""):
+                    return [prefix + "c", prefix + "a", prefix + "b"]
+            fobj, leaves = EMF().rhs, (a, b)
+        else:
+            class NNF(torch.nn.Module):
+                def __init__(self):
+                    super().__init__()
+                    self.c = torch.nn.Parameter(torch.ones(2, dtype=DT), requires_grad=False)
+                    self.a = torch.nn.Parameter(a0.clone())
+                    self.b = torch.nn.Parameter(b0.clone())
+
+                def forward(self, t, y):
+                    return -self.a * self.c * y + self.b * t
+            net = NNF()
+            fobj, leaves = net.forward, (net.a, net.b)
+        y0 = torch.tensor([1.0, 2.0], dtype=DT)
+        with warnings.catch_warnings():
+            warnings.simplefilter("ignore")
+            yt = solve_ivp(fobj, ts, y0, method="rk4")
+            g1 = torch.autograd.grad(yt[-1].sum(), leaves, create_graph=True, allow_unused=True)
+            g1z = [torch.zeros(2, dtype=DT) if g is None else g for g in g1]
+            s_ = sum((g * torch.tensor([1.0, -0.5], dtype=DT)).sum() for g in g1z)
+            g2 = torch.autograd.grad(s_, leaves, allow_unused=True) if s_.requires_grad else (None, None)
+        # reference: the same rk4 unrolled by autograd on a pure function
+        ar, br = a0.clone().requires_grad_(), b0.clone().requires_grad_()
+        yr = solve_ivp(lambda t, y, a_, b_: -a_ * y + b_ * t, ts, y0, params=(ar, br), method="rk4")
+        r1 = torch.autograd.grad(yr[-1].sum(), (ar, br), create_graph=True)
+        r2 = torch.autograd.grad(sum((g * torch.tensor([1.0, -0.5], dtype=DT)).sum() for g in r1), (ar, br))
+        ctx.count(("ivpgrad-frozen-first", kind), nontrivial=True)
+        for nm, x_, y_ in list(zip(("d/da", "d/db"), g1, r1)) + list(zip(("d2/da", "d2/db"), g2, r2)):
+            if x_ is None or not torch.allclose(x_, y_, rtol=1e-7, atol=1e-9):
+                ctx.fail("oracle", "ivpgrad:frozen-tensor-listed-first:%s:%s" % (kind, nm), {"function_kind": kind, "object_tensors": ["c (no grad)", "a", "b"], "create_graph": True},
+                         None if x_ is None else x_.tolist(), y_.tolist())
+                break
 
 
 def aliased_params_probe(ctx):
